@@ -192,7 +192,7 @@ def decide(run, ob, family, op, params, ins, spec, k=10, timeout=60, drop=(), mo
     r = solvers.solve(e.text(pins + [f"(assert {spec_smt})"]), timeout=timeout)
     ob.queries += 1
     ob.solver_s += r.time_s
-    if r.status == "unsat" and d["honest_verify"]:
+    if r.status == "unsat" and d["honest_verify"] and spec_smt.strip() != "false":     # ("false": a part hands over its own verdict)
         # the honest run is accepted by the real checker, satisfies every extracted row exactly (checked above),
         # and the solver says its (inputs, outputs) contradict the specification: is it the system or the spec
         # pins that are inconsistent? decide the system alone at the honest point first.
